@@ -273,5 +273,7 @@ class RainfallClimateNetwork(ClimateNetwork):
         # Get rank time series
         time_series_ranked = self.rank_time_series(anomaly)
         m, tmax = anomaly.shape
+        if tuple(final_mask.shape) != (m, tmax):
+            raise ValueError("final_mask and anomaly differ in shape")
         return spearman_corr(
             m, tmax, to_cy(final_mask, MASK), to_cy(time_series_ranked, FIELD))
